@@ -215,8 +215,13 @@ class Check:
         for k, v in seen.items():
             self.add_violation(k, dict(meta, case=None, detail=None), n=v)
         err = open(errf, 'r', errors='replace').read()
+        mcase = re.search(r'^VF_CASE (\d+)', err, re.M)
+        minput = re.search(r'^VF_INPUT (.*)$', err, re.M)
         for key, excerpt in sanitizer_keys(err):
-            self.add_violation(key, dict(meta, case=None, detail={'report': excerpt}))
+            det = {'report': excerpt}
+            if minput and key.split(':')[0] == 'asan':
+                det['input'] = minput.group(1)[:6000]
+            self.add_violation(key, dict(meta, case=int(mcase.group(1)) if (mcase and key.startswith('asan')) else None, detail=det))
         if rc is None:
             return
         if rc != 0 or not done:
